@@ -2488,6 +2488,7 @@ void mmd_export_footnote_list_html(DString * out, const char * source, scratch_p
 	if (scratch->used_footnotes->size > 0) {
 		footnote * note;
 		token * content;
+		int anchor;
 
 		pad(out, 2, scratch);
 		print_const("<div class=\"footnotes\">\n<hr />\n<ol>");
@@ -2497,7 +2498,15 @@ void mmd_export_footnote_list_html(DString * out, const char * source, scratch_p
 			// Export footnote
 			pad(out, 2, scratch);
 
-			printf("<li id=\"fn:%d\">\n", i + 1);
+			anchor = i + 1;
+
+			if (scratch->extensions & EXT_RANDOM_FOOT) {
+				// Same derivation as used for the calls and the return links
+				srand(scratch->random_seed_base + anchor);
+				anchor = rand() % 32000 + 1;
+			}
+
+			printf("<li id=\"fn:%d\">\n", anchor);
 			scratch->padded = 6;
 
 			note = stack_peek_index(scratch->used_footnotes, i);
